@@ -2,6 +2,7 @@ package chain
 
 import (
 	"context"
+	"encoding/binary"
 	"fmt"
 	"sort"
 	"strings"
@@ -430,7 +431,20 @@ func buildVaultAuth(w *World, op TxOp, v TxView, def signature.Signer, fee *tran
 // action), another nonce or a non-existent vault, by an authority member or an outsider.
 func buildVaultCancel(w *World, op TxOp, v TxView, def signature.Signer, fee *transaction.Fee) (*transaction.Transaction, signature.Signer, error) {
 	rr := c17Rand(op)
-	vlt := vaultPick(rr, vaultsOf(v))
+	vs := vaultsOf(v)
+	vlt := vaultPick(rr, vs)
+	if vlt != nil && rr.Chance(3, 4) {
+		// Prefer a vault that has a pending action for its current nonce.
+		ist := vaultState.NewImmutableState(v.Tree())
+		start := rr.Intn(len(vs))
+		for i := range vs {
+			c := vs[(start+i)%len(vs)]
+			if pa, err := ist.PendingAction(context.Background(), c.Address(), c.Nonce); err == nil && pa != nil {
+				vlt = c
+				break
+			}
+		}
+	}
 	if vlt == nil {
 		return vault.NewCancelActionTx(c17Nonce(v, op, def), fee, &vault.CancelAction{Vault: vaultNoSuch(w, op)}), def, nil
 	}
@@ -678,6 +692,16 @@ func (o *vaultProbe) AfterBlock(s *Sim, _ int64, _ *cmttypes.Block, _ []*BuiltTx
 	return o.viol
 }
 
+// vaultC08Before is the state dump that the C08 oracle took before the current transaction.
+func vaultC08Before(s *Sim) map[string][]byte {
+	for _, ob := range s.TxObs {
+		if c, ok := ob.(*c08Oracle); ok {
+			return c.before
+		}
+	}
+	return nil
+}
+
 func (o *vaultProbe) Finish(*Sim) (*core.Violation, bool) { return o.viol, true }
 
 func (o *vaultProbe) BlockStart(*Sim, *Replica, int64) {}
@@ -693,18 +717,24 @@ func (o *vaultProbe) AfterTx(s *Sim, r *Replica, idx int, raw []byte, st mkvs.Ke
 	if o.viol != nil || res.Code != 0 {
 		return
 	}
-	// Exactly one executed action (nested authorisations execute actions of further vaults), failed.
 	executed := vaultExecuted(res.Events)
+	if c := vaultC08Before(s); c != nil {
+		for _, ee := range executed {
+			key := append(append([]byte{0x32}, ee.Vault[:]...), make([]byte, 8)...)
+			binary.BigEndian.PutUint64(key[len(key)-8:], ee.Nonce)
+			if _, ok := c[string(key)]; ok {
+				// The action was pending before this transaction: an earlier transaction submitted it and
+				// this one supplied the authorisation that reached the threshold.
+				s.St.Inc("probe.vault.action_executed_by_later_cosignature")
+			}
+		}
+	}
+	// Exactly one executed action (nested authorisations execute actions of further vaults), failed.
 	if len(executed) != 1 || !vaultExecFailed(&executed[0]) {
 		return
 	}
 	failed := fmt.Sprintf("%s/%d", executed[0].Result.Module, executed[0].Result.Code)
-	var before map[string][]byte
-	for _, ob := range s.TxObs {
-		if c, ok := ob.(*c08Oracle); ok {
-			before = c.before
-		}
-	}
+	before := vaultC08Before(s)
 	stx, tx := envelopeSigner(raw)
 	if before == nil || stx == nil || tx == nil || tx.Method != vault.MethodAuthorizeAction {
 		return
